@@ -25,4 +25,8 @@ CHECKS = {
         technique="property-based testing: Hypothesis-generated encode requests parsed back range by range against an independent reference (pinned decoder + traversal model + TFLite multiplier derivation); generated request histories compared with pristine-process encodings (history invariant)",
         text="encode_weight_and_scale_tensor is called directly on generated operators (conv/depthwise/FC/transpose conv, 1-2 cores, uneven depth slices); every (core, slice) range is checked for alignment, order, coverage, one 10-byte record per owned channel with the reference bias/multiplier/shift, and a weight stream that decodes to exactly those channels; request sequences sharing weight tensors must return bytes identical to a fresh encoding in a forked pristine process.",
         note="trusted base: vendor/mlw_decode.c, lib/wref.py, lib/tflref.py; requests mimic the reader's per-operator tensor clones"),
+    "C18": dict(
+        technique="property-based testing: Hypothesis-generated .ini files, selections and CLI overrides against a reference resolver written from OPTIONS.md (model-based differential), observed both through ArchitectureFeatures and through the CLI's --verbose-config output; metamorphic check internal-default == documented bundled sections",
+        text="Thousands of generated configuration files with inheritance chains (also across files), option subsets, legal and illegal port mappings and sizes are resolved by the real code and by an independent resolver; error cases must be rejected with a Vela error. A sample runs through vela.main with config paths in bundled/absolute/relative/dot form from three working directories.",
+        note="trusted base: reference resolver in lib/props/c18.py (OPTIONS.md reading), Python configparser merge semantics"),
 }
